@@ -8,6 +8,7 @@ import StepModel.ComplexInitLemmas
 import StepModel.ComplexAccept
 import StepModel.ComplexOrFreeTop
 import StepModel.ComplexTerm2
+import StepModel.ComplexSatO5
 /-!
 # C08 — complex instances are accepted exactly when the supertype constraints allow them
 
@@ -257,6 +258,35 @@ def exDiamondTree : Collect :=
                             .or [.simple 2, .and [.simple 2, .andor [.simple 3]]]]]]
 
 theorem C08_diamond_collectOf : collectOf exDiamond 50 = some exDiamondTree := by rfl
+
+/-- **Soundness with OrLists, the requirements half — every hierarchy, every request.**  Whenever `supports` answers
+`true` (collect of the shape exp2cxx emits, `headWF`; any nesting of OrLists below; request with or without members
+that have several supertypes), some list of the collect derives a set of names that lies inside the request: each AND
+has all its operands present, each ANDOR/ONEOF at least one, recursively, starting at the supertype.  Proved through the
+`viable` values alone (`SemV`): `matchNonORs` and `matchORs` — AndList, AndOrList and the OrList loop with its
+`choice`/`choice1`/maximum bookkeeping — store UNSATISFIED only on lists that cannot be satisfied from the request and
+a value ≥ SATISFIED only on lists that can, what `matchORs` returns agrees with what it stores (for an OrList this
+needs: once `viable` reaches MATCHSOME, `choice1` indexes a child that can be matched), and an acceptance needs
+`viable ≥ MATCHSOME` at the head.  Not covered: that the request contains nothing *beyond* one derivation (the marks
+through `acceptChoice`/`tryNext`: tested only; false with multiply-inheriting members, `C08_sound_witness`). -/
+theorem C08_accept_contains_derivation (c : Collect) (mult parts : List Name) (hc : ∀ h ∈ c, headWF h = true)
+    (hs : supports c mult parts = .ok true) : ∃ h ∈ c, ∃ Y ∈ denote h, ∀ y ∈ Y, y ∈ parts := by
+  obtain ⟨h, hh, hsat⟩ := supports_sat c mult parts hc hs
+  obtain ⟨Y, hY, hsub⟩ := (satO_iff _ h).mp hsat
+  exact ⟨h, hh, Y, hY, fun y hy => (mem_mkNames parts y).mp (hsub y hy)⟩
+
+/-- … and for a request without multiply-inheriting members (excluded: requests with such members, where the joined
+list is matched) it is one and the same list that derives a subset of the request and mentions every part. -/
+theorem C08_accept_one_list_partial (c : Collect) (parts : List Name) (hc : ∀ h ∈ c, headWF h = true)
+    (hs : supports c [] parts = .ok true) :
+    ∃ h ∈ c, (∃ Y ∈ denote h, ∀ y ∈ Y, y ∈ parts) ∧ ∀ x ∈ parts, x ∈ leaves h := by
+  obtain ⟨h, hh, hsat, hin⟩ := supports_sat_single c parts hc hs
+  obtain ⟨Y, hY, hsub⟩ := (satO_iff _ h).mp hsat
+  exact ⟨h, hh, ⟨Y, hY, fun y hy => (mem_mkNames parts y).mp (hsub y hy)⟩, hin⟩
+
+/-- the hypotheses are satisfiable, on a list with an OrList: `a SUPERTYPE OF (ONEOF(b, c) ANDOR d)`, `#n=(D()A()B())` -/
+example : ∃ h ∈ exOneofAndorTree, ∃ Y ∈ denote h, ∀ y ∈ Y, y ∈ [3, 0, 1] :=
+  C08_accept_contains_derivation exOneofAndorTree [] [3, 0, 1] (by decide) C08_oneof_legal_accepted.1
 
 /-- Soundness fails on the current code: `{a, b, d}` lacks `d`'s supertype `c`, yet the matcher accepts it
 (finding `several-supertypes:accepts-illegal`). -/
